@@ -283,7 +283,11 @@ theorem Ev.mono {s s' : Streams} (h : Ev s s') : Mono s s' := by
     split
     · next s1 id heq => rw [heq] at this; exact this.trans (Mono.incNumSendStreams _ _)
     · next s1 heq => rw [heq] at this; exact this
-  | ppAct pid pushed _ =>
+  | queuePP k pk pid fields _ => exact Mono.modStream _ k _ (fun _ h => h) (fun _ => rfl)
+  | ppAct id pk pid fields rest pushed _ _ =>
+    rename_i s0 _ _
+    refine Mono.trans (Mono.modStream s0 id (fun st => { st with pendingSend := rest }) (fun _ h => h) (fun _ => rfl)) ?_
+    generalize s0.modStream id (fun st => { st with pendingSend := rest }) = s1
     unfold ppActivate Streams.queueOpen
     dsimp only
     repeat (first
